@@ -2,7 +2,6 @@ package simrt
 
 import (
 	"fmt"
-	"sync"
 	"sync/atomic"
 	"unsafe"
 )
@@ -76,33 +75,35 @@ func (sp *Sparse) Size() int { return len(sp.Switch) + len(sp.Pool) + len(sp.Dro
 
 // Stats are measured by the scheduler goroutine during one run.
 type Stats struct {
-	Events        int            `json:"events"`
-	Switches      int            `json:"switches"`       // the next task differs from the one that just ran
-	SwitchesInOp  int            `json:"switches_in_op"` // ... and the one that just ran was not at start/end
-	ByKind        map[string]int `json:"by_kind"`
-	PoolFresh     int            `json:"pool_fresh"`
-	PoolFreshOnly int            `json:"pool_fresh_forced"` // free list empty
-	PoolRecent    int            `json:"pool_recent"`
-	PoolOldest    int            `json:"pool_oldest"`
-	PoolRandom    int            `json:"pool_random"`
-	CrossReuse    int            `json:"cross_task_reuse"`         // Get returned an object put by another task
-	ReuseLive     int            `json:"reuse_while_putter_in_op"` // ... while the putting task is still inside the same step
-	Drops         int            `json:"pool_drops"`
-	DoublePut     int            `json:"double_put"`
-	SameObjTwice  int            `json:"same_object_handed_out_while_still_listed"`
-	SiteHits      map[int32]int  `json:"-"`
-	SharedSites   int            `json:"yield_sites_hit_by_2plus_tasks"`
-	siteTasks     map[int32]uint64
-	Contended     int            `json:"lock_contended"`
-	OnceRun       int            `json:"once_run"`
-	OnceWait      int            `json:"once_wait"`
-	ChaseHits     int            `json:"chase_after_put"`
-	Deadlocks     int            `json:"deadlocks"`
-	BudgetAborts  int            `json:"budget_aborts"`
-	Diverged      bool           `json:"replay_diverged"`
-	TraceHash     uint64         `json:"trace_hash"`
-	SitePairs     map[uint64]int `json:"-"` // (kind/site of task i) -> (kind/site of next task j != i)
-	PerTaskEvents []int          `json:"per_task_events"`
+	Events         int            `json:"events"`
+	Switches       int            `json:"switches"`       // the next task differs from the one that just ran
+	SwitchesInOp   int            `json:"switches_in_op"` // ... and the one that just ran was not at start/end
+	ByKind         map[string]int `json:"by_kind"`
+	PoolFresh      int            `json:"pool_fresh"`
+	PoolFreshOnly  int            `json:"pool_fresh_forced"` // free list empty
+	PoolRecent     int            `json:"pool_recent"`
+	PoolOldest     int            `json:"pool_oldest"`
+	PoolRandom     int            `json:"pool_random"`
+	CrossReuse     int            `json:"cross_task_reuse"`         // Get returned an object put by another task
+	ReuseLive      int            `json:"reuse_while_putter_in_op"` // ... while the putting task is still inside the same step
+	Drops          int            `json:"pool_drops"`
+	DoublePut      int            `json:"double_put"`
+	SameObjTwice   int            `json:"same_object_handed_out_while_still_listed"`
+	SiteHits       map[int32]int  `json:"-"`
+	SharedSites    int            `json:"yield_sites_hit_by_2plus_tasks"`
+	siteTasks      map[int32]uint64
+	Contended      int            `json:"lock_contended"`
+	OnceRun        int            `json:"once_run"`
+	OnceWait       int            `json:"once_wait"`
+	ChaseHits      int            `json:"chase_after_put"`
+	Deadlocks      int            `json:"deadlocks"`
+	BudgetAborts   int            `json:"budget_aborts"`
+	ExternalBlocks int            `json:"blocked_outside_simulator"` // a task blocked on a channel/Cond/... of the code under test
+	Leaked         []int          `json:"tasks_blocked_forever,omitempty"`
+	Diverged       bool           `json:"replay_diverged"`
+	TraceHash      uint64         `json:"trace_hash"`
+	SitePairs      map[uint64]int `json:"-"` // (kind/site of task i) -> (kind/site of next task j != i)
+	PerTaskEvents  []int          `json:"per_task_events"`
 }
 
 // ErrAbort is the panic value thrown into a task when the scheduler aborts it.
@@ -134,11 +135,13 @@ const (
 	tsPending
 	tsRunning
 	tsDone
+	tsExternal // blocked on something the simulator does not model (channel, Cond, WaitGroup, ...)
 )
 
 type task struct {
-	id   int
-	resp chan resp
+	id       int
+	resp     chan resp
+	finished chan struct{} // closed by the task goroutine when it exits (publishes its writes to Run's caller)
 	// owned by the scheduler goroutine:
 	state   taskState
 	pending req
@@ -198,6 +201,9 @@ type Sim struct {
 	lastSite  int32
 	Trace     []TraceEvent
 	keepTrace bool
+
+	quiescent func()        // blocks until every other goroutine of the bubble is durably blocked (synctest.Wait)
+	stuck     chan struct{} // monitor -> scheduler: nothing can run
 }
 
 // TraceEvent is one scheduler decision (kept only when tracing is requested).
@@ -235,7 +241,7 @@ func New(cfg Config, n int, mapSeeds []uint64, keepTrace bool) *Sim {
 	s.stats.siteTasks = map[int32]uint64{}
 	s.stats.TraceHash = 14695981039346656037
 	for i := 0; i < n; i++ {
-		t := &task{id: i, resp: make(chan resp), order: NewRand(mapSeeds[i])}
+		t := &task{id: i, resp: make(chan resp), finished: make(chan struct{}), order: NewRand(mapSeeds[i])}
 		s.tasks = append(s.tasks, t)
 	}
 	if cfg.Replay == nil && cfg.Sched == SchedPCT {
@@ -255,7 +261,15 @@ func New(cfg Config, n int, mapSeeds []uint64, keepTrace bool) *Sim {
 	return s
 }
 
-// Run executes the task bodies under the scheduler and returns when all have ended.
+// SetQuiescenceWait installs a function that blocks until every other goroutine of the run is
+// durably blocked (testing/synctest.Wait inside a bubble). With it the scheduler notices when the
+// running task blocks on something the simulator does not model (a channel, sync.Cond or WaitGroup
+// of the code under test): that task is set aside, the others go on, and if it is still blocked when
+// everybody else has finished it is reported as blocked forever.
+func (s *Sim) SetQuiescenceWait(f func()) { s.quiescent = f }
+
+// Run executes the task bodies under the scheduler and returns when all have ended (or are
+// blocked forever, see Stats().Leaked).
 func (s *Sim) Run(bodies []func()) {
 	if len(bodies) != len(s.tasks) {
 		panic("simrt: wrong number of bodies")
@@ -263,22 +277,45 @@ func (s *Sim) Run(bodies []func()) {
 	if !active.CompareAndSwap(nil, s) {
 		panic("simrt: simulation already active")
 	}
-	var wg sync.WaitGroup
 	for i := range bodies {
 		t, body := s.tasks[i], bodies[i]
-		wg.Add(1)
 		go func() {
-			defer wg.Done()
+			defer close(t.finished)
 			s.call(t, req{task: t, kind: KStart})
 			defer func() { s.call(t, req{task: t, kind: KEnd}) }()
 			body()
 		}()
 	}
+	if s.quiescent != nil {
+		s.stuck = make(chan struct{})
+		go s.monitor()
+	}
 	go s.loop()
-	wg.Wait()
 	<-s.done
+	leaked := map[int]bool{}
+	for _, id := range s.stats.Leaked {
+		leaked[id] = true
+	}
+	for _, t := range s.tasks {
+		if !leaked[t.id] {
+			<-t.finished
+		}
+	}
 	curTask.Store(nil)
 	active.Store(nil)
+}
+
+func (s *Sim) monitor() {
+	raceDisable()
+	defer raceEnable()
+	for {
+		s.quiescent()
+		select {
+		case <-s.done:
+			return
+		case s.stuck <- struct{}{}:
+		}
+	}
 }
 
 // Stats returns the measured statistics; valid after Run.
@@ -351,7 +388,12 @@ func (s *Sim) loop() {
 				}
 			}
 			if blocked < 0 {
-				break // all done
+				for _, t := range s.tasks {
+					if t.state == tsExternal {
+						s.stats.Leaked = append(s.stats.Leaked, t.id)
+					}
+				}
+				break // all done (or blocked forever outside the simulator)
 			}
 			s.stats.Deadlocks++
 			t := s.tasks[blocked]
@@ -385,10 +427,38 @@ func (s *Sim) resume(t *task, rs resp) {
 	t.state = tsRunning
 	curTask.Store(t)
 	t.resp <- rs
-	r := <-s.reqCh
-	if r.task != t {
-		panic(fmt.Sprintf("simrt: request from task %d while task %d is running", r.task.id, t.id))
+	for {
+		var r req
+		if s.stuck == nil {
+			r = <-s.reqCh
+		} else {
+			select {
+			case r = <-s.reqCh:
+			case <-s.stuck:
+				// every goroutine is durably blocked although t was given the processor: t waits
+				// on something the simulator does not model
+				t.state = tsExternal
+				s.stats.ExternalBlocks++
+				s.trace(t, "blocked-outside-simulator", "")
+				s.hash(0xb10c, uint64(t.id))
+				return
+			}
+		}
+		if r.task != t {
+			if r.task.state != tsExternal {
+				panic(fmt.Sprintf("simrt: request from task %d while task %d is running", r.task.id, t.id))
+			}
+			// a task that was blocked outside the simulator got released and reached a decision point
+			s.accept(r.task, r)
+			continue
+		}
+		s.accept(t, r)
+		return
 	}
+}
+
+// accept books the request r that task t has just made.
+func (s *Sim) accept(t *task, r req) {
 	s.ev++
 	s.stats.Events++
 	t.events++
